@@ -40,11 +40,25 @@ def optErr (j : Json) (k : String) : P (Option CR.Err) :=
 
 /-- {"id", "name", "xmlErr"?: class, "pbErr"?: class} — the error classes: the planning problems cannot be written -/
 def inputOf (j : Json) : P SInput := do
-  pure { id := ← getNat j "id", name := ← getStr j "name", xmlErr := ← optErr j "xmlErr", pbErr := ← optErr j "pbErr" }
+  let hasPP ← (match fieldOpt j "hasPP" with
+    | none => pure true
+    | some v => asBool v : P Bool)
+  pure { id := ← getNat j "id", name := ← getStr j "name", hasPP := hasPP, xmlErr := ← optErr j "xmlErr",
+         pbErr := ← optErr j "pbErr" }
 
-/-- ["new", fmt, input index, precision] | ["write", writer index, kind, file|null, mode, answerN, date] -/
+def answerOf (j : Json) : P Answer := do
+  match ← asStr j with
+  | "n" => pure .n
+  | "other" => pure .other
+  | "eof" => pure .eof
+  | s => throw s!"answer: {s}"
+
+/-- ["new", fmt, input index, precision] | ["write", writer index, kind, file|null, mode, answer, date] | ["setglobal", g] -/
 def opOf (inputs : List SInput) (j : Json) : P (Op SInput String) := do
   match ← asArr j with
+  | [t, g] =>
+    if (← asStr t) != "setglobal" then throw "op: expected setglobal" else
+    pure (.setGlobal (← asNat g))
   | [t, a, b, c] =>
     if (← asStr t) != "new" then throw "op: expected new" else
     let k ← asNat b
@@ -56,7 +70,7 @@ def opOf (inputs : List SInput) (j : Json) : P (Op SInput String) := do
     let file ← (match f with
       | .null => pure none
       | v => do pure (some (← asStr v)) : P (Option String))
-    pure (.write (← asNat w) (← kindOf k) file (← modeOf m) (← asBool ans) (← asStr d))
+    pure (.write (← asNat w) (← kindOf k) file (← modeOf m) (← answerOf ans) (← asStr d))
   | _ => throw "op: bad arity"
 
 def nodeJ (n : SNode) : Json := Json.arr #[Json.bool n.pp, natJ n.inp, natJ n.prec]
@@ -72,6 +86,7 @@ def contentJ (x : SContent) : Json := Json.arr #[fmtJ x.fmt, natJ x.inp, Json.bo
     content "date stamp aside" -/
 def outcomeJ : Outcome SBytes → Json
   | .created i => Json.mkObj [("created", natJ i)]
+  | .done => "done"
   | .skipped => "skipped"
   | .wrote p b => Json.mkObj [("wrote", Json.arr #[Json.str p, bytesJ b]), ("read", optJ contentJ (symCodec.read b)),
                               ("erased", bytesJ (symCodec.eraseDate b))]
@@ -97,7 +112,11 @@ def handle (op : String) (a : Json) : P Json := do
     let ops ← getList (opOf inputs) a "ops"
     let paths ← getList asStr a "paths"
     let fs0 : String → Option SBytes := fun q => (pre.find? (·.1 == q)).map (fun e => .foreign e.2)
-    let st0 : St SInput SNode SBytes String := { gprec := ← getNat a "gprec", fs := fs0, ws := [] }
+    let bad ← (match fieldOpt a "unwritable" with
+      | none => pure []
+      | some v => listOf asStr v : P (List String))
+    let st0 : St SInput SNode SBytes String :=
+      { gprec := ← getNat a "gprec", fs := fs0, unwritable := fun q => bad.contains q, ws := [] }
     let r := run sem symCodec st0 ops
     pure <| Json.mkObj [
       ("outcomes", Json.arr (r.2.map outcomeJ).toArray),
